@@ -152,9 +152,15 @@ def run(ctx):
                 labels = rng.sample(range(3 * nrows + 3), nrows)
             elif lab < 0.3 and nrows > 1:
                 labels = [rng.randrange(max(1, nrows // 2)) for _ in range(nrows)]
+            stepped = False
+            if 0.3 <= lab < 0.42 and nrows > 1:
+                # every second / third record of a larger frame (big[::2]): a RangeIndex that starts at 0 with a step
+                step = rng.choice([2, 3])
+                labels = list(range(0, step * nrows, step))
+                stepped = True
             if labels != list(range(nrows)):
-                df.index = labels
-                ctx.bump('labels.unique' if len(set(labels)) == nrows else 'labels.repeated')
+                df.index = pd.RangeIndex(0, labels[-1] + 1, labels[1] - labels[0]) if stepped else labels
+                ctx.bump('labels.stepped_range' if stepped else 'labels.unique' if len(set(labels)) == nrows else 'labels.repeated')
             rownum = rng.random() < 0.4
             if rownum:
                 opts['rownumber_is_index'] = False
@@ -165,6 +171,8 @@ def run(ctx):
             work_df = df.copy()
             before = df.copy()
             err = io.StringIO()
+            import copy as _copy
+            d_pristine = _copy.deepcopy(d)
             try:
                 with contextlib.redirect_stderr(err), contextlib.redirect_stdout(err):
                     v = detect_df(work_df, d, epsilon=case['eps'], type_checking=tc, repair=False,
@@ -174,6 +182,27 @@ def run(ctx):
                 ctx.fail(desc, 'detect_df raised %s: %s' % (type(e).__name__, str(e)[:300]),
                          finding=classify_exc(case, e))
                 continue
+            # ---- the same in-memory constraint set used again for a second batch (numeric fields shifted by a half):
+            # the verdicts are those of a pristine copy of the set - nothing of the first batch sticks to it
+            if ci % 3 == 0:
+                try:
+                    df2 = df.copy()
+                    for c_ in df2.columns:
+                        if str(df2[c_].dtype) in ('float64', 'float32', 'Float64'):
+                            df2[c_] = df2[c_] + 0.5
+                    with contextlib.redirect_stderr(err), contextlib.redirect_stdout(err):
+                        u1 = verify_df(df2.copy(), d, epsilon=case['eps'], type_checking=tc, repair=False)
+                        u2 = verify_df(df2.copy(), _copy.deepcopy(d_pristine), epsilon=case['eps'], type_checking=tc, repair=False)
+                    nb_ = lambda x: None if x is None else bool(x)
+                    r1 = {nm: {k: nb_(fr[k]) for k in C.KINDS if k in fr} for nm, fr in u1.fields.items()}
+                    r2 = {nm: {k: nb_(fr[k]) for k in C.KINDS if k in fr} for nm, fr in u2.fields.items()}
+                    ctx.bump('second_batch')
+                    if r1 != r2:
+                        ctx.fail(dict(desc, second_batch='numeric fields + 0.5'),
+                                 'a second batch checked with the constraint set already used for the first gives %r; with a '
+                                 'pristine copy of the set %r (the set is now %r)' % (r1, r2, d.get('fields')))
+                except Exception:
+                    ctx.bump('second_batch.raised')
             # ---- verdicts identical to plain verification
             nb = lambda x: None if x is None else bool(x)
             dv = {nm: {k: nb(fr[k]) for k in C.KINDS if k in fr} for nm, fr in v.fields.items()}
